@@ -337,10 +337,10 @@ func (vm *VirtualMachine) Get(name string) (object.Object, error) {
 	if code == nil {
 		return nil, errors.New("no active code")
 	}
-	for i := 0; i < code.GlobalsCount(); i++ {
-		if g := code.Global(i); g.Name() == name {
-			return code.Globals[g.Index()], nil
-		}
+	// The variable declared at the top level, not a variable of a block there
+	// that has the same name
+	if index, ok := code.GlobalIndex(name); ok && index < len(code.Globals) {
+		return code.Globals[index], nil
 	}
 	return nil, fmt.Errorf("%w: %q", ErrGlobalNotFound, name)
 }
